@@ -491,3 +491,85 @@ def c14(ctx):
     return "model_checking", ("TLC checks the lerp laws on Lerp.tla for all 65536 pairs of an 8-bit type x 17 abscissae; the real Lerp::lerp is swept (8-bit pairs x k/16; the f32 neighbours of "
                               "0, 1/2, 1; boundary, mixed-magnitude and 24-bit-mantissa values for 16/32/64-bit types; m*2^s beyond 2^31; f32/f64; glam vectors) and every record is "
                               "validated by TLC against the exact integer model")
+
+
+# =========================================================================================
+#  macros: C15 (timeline!), C16 (animator!), C17 (derive(Animate))
+# =========================================================================================
+GEN = os.path.join(ROOT, "gen")
+
+
+def build_gen(ctx, gen_dir, binary="gen"):
+    env = dict(os.environ)
+    env["VERIF_GEN_DIR"] = gen_dir
+    p = subprocess.run(["cargo", "build", "--offline", "--quiet", "--bin", binary], cwd=GEN, capture_output=True, text=True, timeout=1800, env=env)
+    if p.returncode == 0:
+        import vlib
+        vlib._built.add((GEN, False))      # run_harness must not rebuild it without VERIF_GEN_DIR
+    return p
+
+
+def rustc_rejects(ctx, files, deps_dir):
+    """Compiles each file against the freshly built mina rlib; returns list of (file, accepted, first error line)."""
+    rlibs = sorted(f for f in os.listdir(deps_dir) if f.startswith("libmina-") and f.endswith(".rlib"))
+    if not rlibs:
+        raise ToolError("no libmina rlib in " + deps_dir)
+    rlib = os.path.join(deps_dir, max(rlibs, key=lambda f: os.path.getmtime(os.path.join(deps_dir, f))))
+    out = []
+    for f in files:
+        p = subprocess.run(["rustc", "--edition", "2021", "--crate-type", "lib", "--emit=metadata", "-o", ctx.path("ill.rmeta"),
+                            "-L", "dependency=" + deps_dir, "--extern", "mina=" + rlib, f], capture_output=True, text=True, timeout=300)
+        err = [l for l in p.stderr.split("\n") if l.startswith("error")]
+        out.append((f, p.returncode == 0, err[0][:200] if err else ""))
+    return out
+
+
+@check("C15")
+def c15(ctx):
+    run = run_tlc(ctx, "MC_Grammar", "MC_Grammar.cfg", workers=4, subst={"NRand": 60 if ctx.quick() else 1200}, capture="gen-grammar.txt", timeout=3000)
+    n = count_replay(run["out"])
+    if n == 0:
+        raise ToolError("grammar generator produced no sentences")
+    gdir = ctx.path("gen")
+    p = subprocess.run(["python3", os.path.join(ROOT, "bin", "gen_macros.py"), "sentences", run["out"], gdir], capture_output=True, text=True)
+    if p.returncode != 0:
+        raise ToolError("gen_macros failed: " + p.stderr[-1000:])
+    counts = json.loads(p.stdout.strip().split("\n")[-1])
+    b = build_gen(ctx, gdir)
+    if b.returncode != 0:
+        if "sentences.rs" not in b.stderr:
+            raise ToolError("the repository (or the harness) does not compile: " + b.stderr[-1500:])
+        # a well-formed sentence of the grammar that the real macro rejects is itself a violation
+        ctx.violation("a well-formed sentence does not compile with the real macro (or the twin does not)", {"rustc": b.stderr[-1500:]})
+        return "model_checking", RULE_GRAMMAR
+    rep = run_harness([run["out"]], which=GEN, binary="gen")
+    ctx.traces += counts["sentences"] + counts["merged"]
+    ctx.evaluations += rep["evals"]
+    sents = json.load(open(os.path.join(gdir, "sentences.json")))
+    ctx.sample({"sentence": sents[len(sents) // 2]["tokens"]})
+    ctx.sample({"sentence": sents[-1]["tokens"]})
+    judge_replay(ctx, rep, lambda m: True, "timeline! sentence vs builder twin vs documented reading")
+    # ill-formed sentences must be rejected at compile time; the controls must compile
+    ill = json.load(open(os.path.join(gdir, "ill.json")))
+    files = [os.path.join(gdir, "ill_%02d.rs" % j) for j in range(len(ill))]
+    res = rustc_rejects(ctx, files, os.path.join(GEN, "target", "debug", "deps"))
+    ctx.extra["ill_formed"] = [{"class": it["class"], "tokens": it["tokens"], "rejected": not acc, "error": err} for it, (_, acc, err) in zip(ill, res)]
+    for it, (_, acc, err) in zip(ill, res):
+        if it["class"].startswith("control"):
+            if not acc:
+                ctx.violation("a well-formed control sentence is rejected", {"tokens": it["tokens"], "error": err})
+        elif acc:
+            ctx.violation("an ill-formed sentence is silently accepted", {"class": it["class"], "tokens": it["tokens"]})
+    ctx.traces += len(ill)
+    ctx.assumptions += ["builder twin uses the documented conversions literally: N/1000 for ms, N/100 for %, decimal literals for seconds",
+                        "sampled times avoid the exact phase-boundary instants of the millisecond grid (f32-ambiguous); macro vs twin is compared bit for bit regardless",
+                        "compile-time rejection is the verdict of rustc on one file per ill-formed sentence"]
+    return "model_checking", RULE_GRAMMAR
+
+
+RULE_GRAMMAR = ("TLC draws pseudo-random sentences (<= 7 arguments, every prefix) over the argument alphabet of Grammar.tla (duration/delay literal forms int, float, "
+                "underscored, s/ms, optional `for`; Nx / infinite; reverse; easing paths; from/to/N% keyframes incl. fractional percentages and any field subset), checks "
+                "that the Reading is invariant under swapping arguments of different kinds, and prints each with its Reading and predicted values; a printer renders the "
+                "macro tokens and the builder twin; the real macro compiles them; at run time macro == twin bit for bit (metadata and values), macro == spec within "
+                "tolerance, merged lists == MergedTimeline::of(twins) and == ordered overlay; ill-formed variants (one per class, embedded in generated sentences) must be "
+                "rejected by rustc")
